@@ -168,9 +168,16 @@ def _judge_model(kind, case, rec, family):
         first_copy = (np.array(first.mean, copy=True), np.array(first.covariance, copy=True))
         n_iv = 0
         last_kw = None
+        used_kws = []
         for _ in range(steps):
             c = int(rng.integers(0, 4))
             kw = {"do_interventions": _iv(rng, p), "shift_interventions": _iv(rng, p), "noise_interventions": _iv(rng, p)}
+            if p >= 65 and rng.random() < 0.6:
+                # big models: interventions on the variables with index >= 64 that have parents (beyond any 64-bit set encoding)
+                high = [j for j in range(64, p) if W0[:, j].any()]
+                if high:
+                    kw[("do_interventions", "noise_interventions")[int(rng.integers(2))]][int(rng.choice(high))] = (1.5, 0.5)
+            used_kws.append(dict((k_, dict(v_)) for k_, v_ in kw.items()))
             n_iv += any(kw.values())
             if any(kw.values()) and c == 0:
                 last_kw = kw
@@ -223,6 +230,23 @@ def _judge_model(kind, case, rec, family):
             if not np.array_equal(r2, t2):
                 rec.violation("C14:lganm-result-depends-on-earlier-call", family, case,
                               "sample(4, random_state=11) with the same intervention targets as an earlier call but other parameters differs from a fresh twin's result")
+        # every kind of question put during the history is put again, to the used model and to the fresh twin: same answers
+        seen_kw = set()
+        for kw_ in used_kws[::-1]:
+            key_ = repr(sorted((k_, sorted(v_.items(), key=repr)) for k_, v_ in kw_.items()))
+            if key_ in seen_kw or len(seen_kw) >= 8:
+                continue
+            seen_kw.add(key_)
+            try:
+                d1, d2 = model.sample(population=True, **kw_), twin.sample(population=True, **kw_)
+            except Exception:
+                continue
+            rec.count("history:settings-re-asked-against-twin")
+            if not _same_dist(d1, d2):
+                rec.violation("C14:lganm-result-depends-on-earlier-call", family, case,
+                              "the population law under interventions asked earlier in the history differs between the used model and a fresh twin "
+                              "(targets do=%s noise=%s shift=%s)" % (sorted(kw_["do_interventions"]), sorted(kw_["noise_interventions"]), sorted(kw_["shift_interventions"])))
+                break
         for name, orig in (("W", W0), ("means", m0), ("variances", v0)):
             if not np.array_equal(np.asarray(getattr(model, name)), orig) or model.p != p:
                 rec.violation("C14:lganm-attribute-changed", family, case, "attribute %s differs from the constructor argument" % name)
